@@ -16,6 +16,11 @@ CHECKS = {
         text="Exploration: generated well-typed expressions biased to the five optimiser rewrites (constant arithmetic at any depth incl. call arguments and overflow, literal arrays, membership in literal arrays/ranges with left operands of every admitted static type, constant ranges of size 0/1/descending/1e3/around 1e6, pure calls under drawn ConstExpr marks incl. variadic nil arguments, operator overloads on built-in types) plus a control group; the three programs must all fail or all return equal values on each environment value; the optimiser may reject only constant integer division/modulo by zero; a ConstExpr mark may only move a failing constant call to compile time.",
         note="Trusted: Equiv, the constant evaluator core/constfold.go, purity of the harness functions. Budget failures on one side only are incomparable (counted). Open findings F09 (in-range rewrite ignores operand type) and F26 (int type claimed for arithmetic with a dynamic operand) are excluded by construction and replayed.",
         ref="4/C02"),
+    "C05": dict(
+        technique="property-based testing (rapid) + deterministic enumeration of oversized programs; validity predicate: independent bytecode decoder with operand/constant-kind/jump-target checks and an exact stack/scope-depth dataflow over the control-flow graph; run-time end-state check on a caller-owned VM; reference evaluator for large programs",
+        text="Exploration: every generated program (C01/C02 generators, typed/untyped, optimiser on/off, cast directives) is decoded by an opcode table written independently of the VM (cross-checked against Disassemble), its operands, constant kinds and jump targets are checked, and its stack/scope depth is propagated along every control-flow path (never below what an instruction pops, equal at joins, one value and no scope at the end; programs with run-time sized arrays from map/filter are exempt from the depth dataflow and counted); each is then run on a caller-owned VM whose stack must be empty and scope closed after success, and no failure may carry Go's empty-stack signature. Eight constructions with branches / loop bodies beyond 64 KiB and constant pools beyond 65 535 entries must be refused at compile time or verify and agree with the reference evaluator.",
+        note="Trusted: the harness opcode table (validated against Disassemble on every small program), the assumption that OpArray/OpMap sizes come from the preceding integer push, the reference evaluator for the large class.",
+        ref="4/C05"),
     "C10": dict(
         technique="bounded exhaustive enumeration of (parent kind, child slot, child kind) triples + rapid random ast.Node trees against a reflection-based child enumerator; replacement visitors; Patch differential (41->42) end to end",
         text="Exploration, exhaustive over all single-edge shapes: every node kind in every child slot of every parent kind (optional slots absent/present, lists of length 0-3), each with and without a replacing visitor on Enter and on Exit; random deep trees; parsed and optimised trees of generated programs; and a differential between Compile(src, Patch(41->42)) and Compile(src with 42) with the literal at drawn positions.",
